@@ -222,7 +222,68 @@ def run(ctx):
     _base_cases(R, F, pairs)
     _key_order(R, F, pairs)
     _serde_symmetry(R, F, ctx)
+    _loop_scratch_buffers(R, F)
     return R
+
+
+def _loop_scratch_buffers(R, F):
+    """An RLP / codec `encode(&mut buf)` *appends* to its buffer (trusted: alloy_rlp::Encodable, the repo's own Encode).  Inside a
+    loop that produces one encoding per element, the buffer handed to it must be new for every element: created inside the loop
+    body, or cleared there before the call.  A buffer hoisted out of the loop makes element i carry elements 0..i - and a
+    lenient decoder (first RLP item, rest ignored) hides it: everything decodes as element 0."""
+    import looprule as LR
+
+    def place_root(f, op):
+        """the local a `&mut buf` argument points into: through copies, reborrows and the unsizing cast to `&mut dyn BufMut`"""
+        seen = set()
+        while isinstance(op, dict) and "l" in op and op["l"] not in seen:
+            seen.add(op["l"])
+            ds = [d for d in f.defs().get(op["l"], []) if not f.is_cleanup(d[0]) and d[2] in ("assign", "call")]
+            if len(ds) != 1 or ds[0][2] != "assign":
+                break
+            rv = ds[0][3]["rv"]
+            if rv["k"] in ("use", "cast") and rv.get("ops") and "l" in rv["ops"][0]:
+                op = {"l": rv["ops"][0]["l"]}
+            elif rv["k"] == "ref" and rv.get("place") is not None:
+                op = {"l": rv["place"]["l"]}
+            else:
+                break
+        return (op.get("l") if isinstance(op, dict) else None), []
+    n = 0
+    for f in list(F.body_fns()):
+        if not (f.name.startswith("db::types::") or f.name.startswith("api::types::")) or "::tests::" in f.name:
+            continue
+        loops = LR.natural_loops(f)
+        if not loops:
+            continue
+        for c in f.calls():
+            if f.is_cleanup(c.bb) or (c.method or "") not in ("encode", "encode_2718", "rlp_encode", "encode_fields", "encode_with_envelope"):
+                continue
+            inner = [(h, bd) for (h, bd, _bk) in loops if c.bb in bd]
+            if not inner:
+                continue
+            h, body = min(inner, key=lambda x: len(x[1]))
+            for a in c.args[1:]:
+                if "l" not in a:
+                    continue
+                ty = f.local_ty(a["l"])
+                if not (ty.startswith("&mut") and ("Vec<u8>" in ty or "BufMut" in ty or "BytesMut" in ty)):
+                    continue
+                root, _pr = place_root(f, a)
+                if root is None:
+                    continue
+                ds = [d for d in f.defs().get(root, []) if not f.is_cleanup(d[0]) and d[2] in ("assign", "call")]
+                if not ds or (1 <= root <= f.argc):
+                    continue          # the caller's buffer: appending is the contract of this function
+                n += 1
+                fresh = all(d[0] in body for d in ds)
+                cleared = any((x.method or "") in ("clear",) and x.bb in body and not f.is_cleanup(x.bb) and x.args and place_root(f, x.args[0])[0] == root
+                              and f.dominates(x.bb, c.bb) for x in f.calls())
+                R.ob(fresh or cleared, "CODEC", c.where(), "CODEC|%s|loop-scratch-buffer" % f.name.split("::{closure")[0].split("::", 2)[-1],
+                     "the buffer `%s` that %s appends to is created outside the loop and not cleared in it: the encoding of element i "
+                     "carries the encodings of all elements before it" % (f.local_name(root) or "_%d" % root, c.method),
+                     sample={"rule": "CODEC loop scratch buffer", "fn": f.name[-50:], "buffer": f.local_name(root) or "_%d" % root, "fresh_per_element": fresh, "cleared": cleared})
+    R.counts["loop_scratch_buffers"] = n
 
 
 def _straight(fn):
